@@ -27,7 +27,7 @@ import (
 const c06NBases = 2
 
 type c06Op struct {
-	kind         string // Q B D P
+	kind         string // Q B D P M
 	req          string
 	pid          int
 	l22, off, l3 bool
@@ -43,6 +43,7 @@ type c06Case struct {
 	proj  []bool
 	trig  []bool
 	pre   [][2]int // pre-existing (pid, run) directories
+	nums  []int    // channel numbers (chanNumbers)
 	ops   []c06Op
 }
 
@@ -60,6 +61,10 @@ func (c *c06Case) input() string {
 	for _, p := range c.proj {
 		fmt.Fprintf(&sb, " %d", b2i(p))
 	}
+	sb.WriteString(" nums")
+	for _, n := range c.nums {
+		fmt.Fprintf(&sb, " %d", n)
+	}
 	fmt.Fprintf(&sb, " pre %d", len(c.pre))
 	for _, p := range c.pre {
 		fmt.Fprintf(&sb, " %d %d", p[0], p[1])
@@ -75,6 +80,8 @@ func (c *c06Case) input() string {
 			fmt.Fprintf(&sb, " D %d %d", op.ch, op.n)
 		case "P":
 			fmt.Fprintf(&sb, " P %d", op.ch)
+		case "M":
+			fmt.Fprintf(&sb, " M %d", op.n)
 		}
 	}
 	return sb.String()
@@ -300,6 +307,7 @@ func (c *c06Case) run() string {
 			}
 		}
 	}
+	vs.VerifC06SetChanNumbers(c.nums)
 	sc := dastard.VerifNewSourceControl(vs, c.npre, c.nsamp)
 	var sb strings.Builder
 	fmt.Fprintf(&sb, "%d", len(c.ops))
@@ -315,8 +323,12 @@ func (c *c06Case) run() string {
 				cfg.Path = filepath.Join(root, fmt.Sprintf("p%d", op.pid))
 			}
 			var reply bool
+			mapLen := sc.VerifC06MapLen() // the map this request will be handed by the RPC layer
 			err := callRPC(sc, func() error { return sc.WriteControl(&cfg, &reply) })
-			fmt.Fprintf(&sb, " E %d", b2i(err != nil))
+			fmt.Fprintf(&sb, " E %d %d", b2i(err != nil), mapLen)
+		case "M":
+			sc.VerifC06SetMap(op.n)
+			sb.WriteString(" -")
 		case "B":
 			data := make([][]dastard.RawType, c.nch)
 			for ch := range data {
@@ -431,8 +443,19 @@ func c06Scripted(idx int) *c06Case {
 	q := func(w string, pid int, l22, off, l3 bool) c06Op {
 		return c06Op{kind: "Q", req: w, pid: pid, l22: l22, off: off, l3: l3}
 	}
-	c := &c06Case{idx: idx, nch: 2, npre: 3, nsamp: 8, proj: []bool{true, false}, trig: []bool{true, true}}
+	c := &c06Case{idx: idx, nch: 2, npre: 3, nsamp: 8, proj: []bool{true, false}, trig: []bool{true, true}, nums: []int{1, 2}}
 	switch idx {
+	case 2: // a START with a pixel map that lacks a pixel for the LAST channel's number is refused: nothing may change
+		c = &c06Case{idx: idx, nch: 4, npre: 3, nsamp: 8, proj: []bool{true, true, false, true}, trig: []bool{true, true, true, true},
+			nums: []int{1, 2, 3, 9}}
+		c.ops = []c06Op{{kind: "M", n: 4}, q("START", 0, true, true, true), {kind: "D", ch: 0, n: 2}, {kind: "B", nsamples: 24},
+			q("START", 0, true, false, false), {kind: "D", ch: 1, n: 1}, q("STOP", -1, false, false, false),
+			{kind: "M", n: 4}, q("START", 0, false, false, true), {kind: "D", ch: 2, n: 3}, q("STOP", -1, false, false, false)}
+	case 3: // a good map: accepted
+		c = &c06Case{idx: idx, nch: 3, npre: 3, nsamp: 8, proj: []bool{false, true, false}, trig: []bool{true, true, true},
+			nums: []int{3, 1, 2}}
+		c.ops = []c06Op{{kind: "M", n: 3}, q("START", 1, true, true, false), {kind: "D", ch: 1, n: 2}, {kind: "M", n: 2},
+			q("STOP", -1, false, false, false), q("START", -1, true, false, false), {kind: "D", ch: 0, n: 1}, q("START", -1, true, false, false)}
 	case 0:
 		c.ops = []c06Op{q("PAUSE", -1, false, false, false), q("START", 0, false, true, false), {kind: "D", ch: 0, n: 2},
 			{kind: "B", nsamples: 24}, q("STOP", -1, false, false, false)}
@@ -445,7 +468,7 @@ func c06Scripted(idx int) *c06Case {
 }
 
 func genC06(r *Rng, tier string, idx int) *c06Case {
-	if idx < 2 {
+	if idx < 4 {
 		return c06Scripted(idx)
 	}
 	c := &c06Case{idx: idx}
@@ -462,6 +485,32 @@ func genC06(r *Rng, tier string, idx int) *c06Case {
 	default:
 		for i := range c.proj {
 			c.proj[i] = r.Bool()
+		}
+	}
+	c.nums = make([]int, c.nch)
+	for i := range c.nums {
+		c.nums[i] = i + 1
+	}
+	mapPct := 0 // how often a map is (re)loaded before a request
+	if r.Chance(35) {
+		mapPct = r.Pick(10, 30, 60)
+		switch r.Intn(6) {
+		case 0: // numbering from 0, as AnySource.PrepareChannels does: the first channel has no pixel
+			for i := range c.nums {
+				c.nums[i] = i
+			}
+		case 1: // a gap: one channel (not the first when there are several) numbered beyond the map
+			c.nums[r.Range(min(1, c.nch-1), c.nch-1)] = c.nch + r.Range(1, 9)
+		case 2: // a permutation of 1..nch: fine
+			for i := c.nch - 1; i > 0; i-- {
+				j := r.Intn(i + 1)
+				c.nums[i], c.nums[j] = c.nums[j], c.nums[i]
+			}
+		case 3: // odd numbers only (Lancero-style), fine only for the first ones
+			for i := range c.nums {
+				c.nums[i] = 2*i + 1
+			}
+		default: // contiguous from 1: fine
 		}
 	}
 	c.trig = make([]bool, c.nch)
@@ -534,6 +583,9 @@ func genC06(r *Rng, tier string, idx int) *c06Case {
 	for q := 0; q < nreq; q++ {
 		if r.Chance(6) {
 			c.ops = append(c.ops, c06Op{kind: "P", ch: r.Intn(c.nch)})
+		}
+		if r.Chance(mapPct) { // load a map (right length, off by one, empty) or unload it
+			c.ops = append(c.ops, c06Op{kind: "M", n: r.Pick(c.nch, c.nch, c.nch, c.nch, c.nch+1, c.nch-1, 0, -1)})
 		}
 		illegal := r.Chance(illegalPct)
 		var word string
